@@ -9,15 +9,15 @@
      result has these properties for EVERY oracle; which of several shortest paths is returned
      depends on Go's map order, so the lists are not compared literally). *)
 
-type case = { src : int; nodes : int list; edges : (int * int * int) list }
+type case = { srcs : int list; nodes : int list; edges : (int * int * int) list }
 
 let parse_input (toks : string list) : case =
-  let src = ref (-1) and nodes = ref [] and edges = ref [] in
+  let srcs = ref [] and nodes = ref [] and edges = ref [] in
   List.iter (fun t ->
     let body = String.sub t 2 (String.length t - 2) in
     let items = List.filter (fun x -> x <> "") (String.split_on_char ',' body) in
     match String.sub t 0 2 with
-    | "s=" -> src := int_of_string body
+    | "s=" -> srcs := List.map int_of_string items
     | "n=" -> nodes := List.map int_of_string items
     | "e=" ->
       edges := List.map (fun x ->
@@ -28,10 +28,10 @@ let parse_input (toks : string list) : case =
            | _ -> failwith ("bad edge " ^ x))
         | _ -> failwith ("bad edge " ^ x)) items
     | _ -> failwith ("bad token " ^ t)) toks;
-  { src = !src; nodes = !nodes; edges = !edges }
+  { srcs = !srcs; nodes = !nodes; edges = !edges }
 
 let in_domain (c : case) : bool =
-  List.mem c.src c.nodes &&
+  c.srcs <> [] && List.for_all (fun s -> List.mem s c.nodes) c.srcs &&
   List.for_all (fun (a, b, w) -> List.mem a c.nodes && List.mem b c.nodes && w >= 0) c.edges &&
   (let maxw = List.fold_left (fun m (_, _, w) -> max m w) 0 c.edges in
    maxw <= max_int / (List.length c.nodes + 1))
@@ -79,8 +79,15 @@ let fmt_edges es =
   if es = [] then "-" else
   String.concat "/" (List.map (fun (a, b, w) -> Printf.sprintf "%d-%d:%d" a b w) es)
 
+let split_steps (toks : string list) : string list list =
+  let rec go cur acc = function
+    | [] -> List.rev (List.rev cur :: acc)
+    | "&&" :: r -> go [] (List.rev cur :: acc) r
+    | t :: r -> go (t :: cur) acc r in
+  go [] [] toks
+
 let () =
-  let compared = ref 0 and mism = ref 0 and skipped = ref 0 and literal = ref 0 in
+  let compared = ref 0 and mism = ref 0 and skipped = ref 0 and literal = ref 0 and calls = ref 0 in
   let mismatch id msg = incr mism; Printf.printf "CORR-MISMATCH case=%s %s\n" id msg in
   iter_trace Sys.argv.(1) (fun id inp obs ->
     let c = parse_input inp in
@@ -89,59 +96,72 @@ let () =
       incr compared;
       let nodes = List.map n_of_int c.nodes and es = List.map mk_edge c.edges in
       let g = graph_of es in
-      let results = List.map (fun (name, o) -> (name, run true o nodes es (n_of_int c.src))) oracles in
+      (* the whole sequence of calls on one topology, once per oracle *)
+      let results = List.map (fun (name, o) ->
+          (name, run_seq true nodes es (List.map (fun s -> (o, n_of_int s)) c.srcs))) oracles in
+      let obs_calls = split_steps obs in
       let bad = ref None in
       let fail msg = if !bad = None then bad := Some msg in
-      (match obs with
-       | ["PANIC"] | ["TIMEOUT"] ->
-         fail (Printf.sprintf "impl=%s model=Ok under every oracle" (List.hd obs))
-       | _ ->
-         let impl = (try List.map parse_obs obs with _ -> fail "unparsable observation"; []) in
-         let impl_dist = List.sort compare (List.map (fun (v, d, _) -> (v, d)) impl) in
-         let impl_str = String.concat " " obs in
-         List.iter (fun (name, r) ->
-           match r with
-           | Ok spt ->
-             let m = List.sort compare
-                 (List.map (fun (v, p) -> (int_of_n v, int_of_z p.pdist)) spt) in
-             if m <> impl_dist then begin
-               let show l = String.concat "," (List.map (fun (v, d) -> Printf.sprintf "%d:%d" v d) l) in
-               fail (Printf.sprintf "oracle=%s distances model=%s impl=%s" name (show m) (show impl_dist))
-             end;
-             (* the model's own paths must pass the verified path test (sanity of the driver) *)
-             List.iter (fun (v, p) ->
-               if int_of_z p.pdist <> -1 &&
-                  not (is_path_b g (n_of_int c.src) v p.pedges && weight p.pedges = p.pdist) then
-                 Printf.printf "MODEL-ERROR case=%s oracle=%s model path for node %d fails is_path_b\n"
-                   id name (int_of_n v)) spt;
-             let mstr = String.concat " " (List.map (fun (v, p) ->
-                 Printf.sprintf "%d:%d:%s" (int_of_n v) (int_of_z p.pdist)
-                   (fmt_edges (List.map (fun e -> (int_of_n e.ea, int_of_n e.eb, int_of_z e.ew)) p.pedges)))
-                 (List.sort (fun (a, _) (b, _) -> compare (int_of_n a) (int_of_n b)) spt)) in
-             if mstr = impl_str && name = "id" then incr literal
-           | Panic -> fail (Printf.sprintf "oracle=%s model=Panic" name)
-           | OutOfFuel -> Printf.printf "MODEL-ERROR case=%s oracle=%s out of fuel\n" id name) results;
-         (* the implementation's edge lists *)
-         List.iter (fun (v, d, pes) ->
-           let p = List.map mk_edge pes in
-           if d = -1 then begin
-             if pes <> [] then fail (Printf.sprintf "node %d: distance -1 with edges %s" v (fmt_edges pes))
-           end else begin
-             if not (is_path_b g (n_of_int c.src) (n_of_int v) p) then
-               fail (Printf.sprintf "node %d: %s is not a path from %d in the model's graph" v (fmt_edges pes) c.src)
-             else if int_of_z (weight p) <> d then
-               fail (Printf.sprintf "node %d: path weight %d, distance %d" v (int_of_z (weight p)) d);
-             (match List.rev pes with
-              | [] -> ()
-              | (u, _, _) :: rest ->
-                let pre = List.rev rest in
-                (match List.find_opt (fun (x, _, _) -> x = u) impl with
-                 | Some (_, _, pu) when pu = pre -> ()
-                 | _ -> fail (Printf.sprintf "node %d: path %s does not extend the path of node %d" v (fmt_edges pes) u)))
-           end) impl);
+      if List.length obs_calls <> List.length c.srcs then
+        fail (Printf.sprintf "%d calls, %d observations (impl stopped: %s)" (List.length c.srcs)
+                (List.length obs_calls) (String.concat " " (List.nth obs_calls (List.length obs_calls - 1))));
+      List.iteri (fun k obs ->
+        if k < List.length c.srcs then begin
+        incr calls;
+        let src = List.nth c.srcs k in
+        let fail msg = fail (Printf.sprintf "call=%d source=%d %s" (k + 1) src msg) in
+        (match obs with
+         | ["PANIC"] | ["TIMEOUT"] ->
+           fail (Printf.sprintf "impl=%s model=Ok under every oracle" (List.hd obs))
+         | _ ->
+           let impl = (try List.map parse_obs obs with _ -> fail "unparsable observation"; []) in
+           let impl_dist = List.sort compare (List.map (fun (v, d, _) -> (v, d)) impl) in
+           let impl_str = String.concat " " obs in
+           List.iter (fun (name, rs) ->
+             match List.nth rs k with
+             | Ok spt ->
+               let m = List.sort compare
+                   (List.map (fun (v, p) -> (int_of_n v, int_of_z p.pdist)) spt) in
+               if m <> impl_dist then begin
+                 let show l = String.concat "," (List.map (fun (v, d) -> Printf.sprintf "%d:%d" v d) l) in
+                 fail (Printf.sprintf "oracle=%s distances model=%s impl=%s" name (show m) (show impl_dist))
+               end;
+               List.iter (fun (v, p) ->
+                 if int_of_z p.pdist <> -1 &&
+                    not (is_path_b g (n_of_int src) v p.pedges && weight p.pedges = p.pdist) then
+                   Printf.printf "MODEL-ERROR case=%s oracle=%s model path for node %d fails is_path_b\n"
+                     id name (int_of_n v)) spt;
+               if name = "id" then begin
+                 let mstr = String.concat " " (List.map (fun (v, p) ->
+                     Printf.sprintf "%d:%d:%s" (int_of_n v) (int_of_z p.pdist)
+                       (fmt_edges (List.map (fun e -> (int_of_n e.ea, int_of_n e.eb, int_of_z e.ew)) p.pedges)))
+                     (List.sort (fun (a, _) (b, _) -> compare (int_of_n a) (int_of_n b)) spt)) in
+                 if mstr = impl_str then incr literal
+               end
+             | Panic -> fail (Printf.sprintf "oracle=%s model=Panic" name)
+             | OutOfFuel -> Printf.printf "MODEL-ERROR case=%s oracle=%s out of fuel\n" id name) results;
+           (* the implementation's edge lists *)
+           List.iter (fun (v, d, pes) ->
+             let p = List.map mk_edge pes in
+             if d = -1 then begin
+               if pes <> [] then fail (Printf.sprintf "node %d: distance -1 with edges %s" v (fmt_edges pes))
+             end else begin
+               if not (is_path_b g (n_of_int src) (n_of_int v) p) then
+                 fail (Printf.sprintf "node %d: %s is not a path from %d in the model's graph" v (fmt_edges pes) src)
+               else if int_of_z (weight p) <> d then
+                 fail (Printf.sprintf "node %d: path weight %d, distance %d" v (int_of_z (weight p)) d);
+               (match List.rev pes with
+                | [] -> ()
+                | (u, _, _) :: rest ->
+                  let pre = List.rev rest in
+                  (match List.find_opt (fun (x, _, _) -> x = u) impl with
+                   | Some (_, _, pu) when pu = pre -> ()
+                   | _ -> fail (Printf.sprintf "node %d: path %s does not extend the path of node %d" v (fmt_edges pes) u)))
+             end) impl)
+        end) obs_calls;
       match !bad with
       | None -> ()
       | Some msg -> mismatch id msg
     end);
-  Printf.printf "STATS compared=%d mismatches=%d skipped_out_of_domain=%d literal_match_id_oracle=%d\n"
-    !compared !mism !skipped !literal
+  Printf.printf "STATS compared=%d mismatches=%d calls=%d skipped_out_of_domain=%d literal_match_id_oracle=%d\n"
+    !compared !mism !calls !skipped !literal
